@@ -136,7 +136,10 @@ func indexedSelectNonRowid(
 
 	var cbErr error
 	err = ind.Scan(func(r sdb.Record) bool {
-		setKey(r, cols, pk)
+		if err := setKey(r, cols, pk); err != nil {
+			cbErr = err
+			return true
+		}
 
 		var found sdb.Record
 		err := tab.ScanEq(pk, func(row sdb.Record) bool {
@@ -196,7 +199,10 @@ func indexedSelectEqNonRowid(
 	err = ind.ScanEq(
 		key,
 		func(r sdb.Record) bool {
-			setKey(r, cols, pk)
+			if err := setKey(r, cols, pk); err != nil {
+				cbErr = err
+				return true
+			}
 
 			var found sdb.Record
 			err := tab.ScanEq(pk, func(row sdb.Record) bool { found = row; return true })
@@ -220,8 +226,13 @@ func indexedSelectEqNonRowid(
 
 // make a key from columns from the record
 // updates key
-func setKey(r sdb.Record, indexes []int, key sdb.Key) {
+func setKey(r sdb.Record, indexes []int, key sdb.Key) error {
 	for i, v := range indexes {
+		if v >= len(r) {
+			// the index entry has fewer columns than the schema says
+			return sdb.ErrCorrupted
+		}
 		key[i].V = r[v]
 	}
+	return nil
 }
